@@ -227,7 +227,7 @@ pub fn run(ctx: &mut Ctx) {
     let n2 = cases2.len();
     ctx.run_par(&SUB_TOR2, cases2, Some(&format!("all {} euclidean 2D symbols (degrees >= 3) with <= {} chambers, one per isomorphism class, each with a fixed renumbering / dual variant", n2, t.pick(8, 9))));
 
-    let (pool, pool_text) = symbol_pool(t.pick(3, 4), t.pick(4, 5), t.pick(10, 10));
+    let (pool, pool_text) = symbol_pool(t.pick(4, 5), t.pick(5, 6), t.pick(20, 10));
     let mut cases3: Vec<TorCase> = vec![];
     for (k, s) in pool.into_iter().enumerate() {
         cases3.push(TorCase { swaps: fixed_swaps(s.size, k), dual: k % 2 == 1, ds: s, known: String::new(), kind: String::new() });
@@ -238,7 +238,7 @@ pub fn run(ctx: &mut Ctx) {
     for (k, (s, why)) in products(t.pick(4, 6)).into_iter().enumerate() {
         cases3.push(TorCase { swaps: fixed_swaps(s.size, k), dual: k % 2 == 1, ds: s, known: why, kind: String::new() });
     }
-    let (ncub, nman) = (t.pick(150, 3000), t.pick(2, 8));
+    let (ncub, nman) = (t.pick(600, 6000), t.pick(3, 10));
     cases3.extend(crate::props::c17::cubic_cases(ncub, t.pick(3, 4)));
     cases3.extend(crate::props::c17::manifold_cases(nman, true));
     let n3 = cases3.len();
@@ -250,9 +250,13 @@ pub fn run(ctx: &mut Ctx) {
     ctx.run_prop(&SUB_TOR2, move || { let p = pool2.clone(); (any::<u32>(), sw(), any::<bool>()).prop_map(move |(k, swaps, dual)| TorCase { ds: p[pick_index(k, p.len())].clone(), swaps, dual, known: String::new(), kind: String::new() }) }, t.pick(1_500, 30_000));
     ctx.layer("random-space-group-quotients");
     let max_n = t.pick(3, 4);
-    ctx.run_prop(&SUB_PTC, move || crate::props::c17::cubic_strategy(max_n), t.pick(300, 6_000));
+    ctx.run_prop(&SUB_PTC, move || crate::props::c17::cubic_strategy(max_n), t.pick(1_500, 20_000));
     ctx.layer("random");
-    let pool3 = Arc::new(cases3);
+    // renumberings are spent on the cases that have a cover or are known euclidean (selection only, not an oracle)
+    let pool3 = {
+        use rayon::prelude::*;
+        Arc::new(cases3.into_par_iter().filter(|c| !c.known.is_empty() || matches!(guarded(|| ptc(&c.ds, false)), Ok(Ok(Some(_))))).collect::<Vec<_>>())
+    };
     ctx.run_prop(&SUB_PTC, move || { let p = pool3.clone(); (any::<u32>(), sw(), any::<bool>()).prop_map(move |(k, swaps, dual)| { let mut c = p[pick_index(k, p.len())].clone(); c.swaps = swaps; c.dual = dual; c }) }, t.pick(1_500, 30_000));
 }
 
